@@ -198,7 +198,7 @@ class BundleContainer(object):
                 blk_num = Bundle.BLOCK_NUM_PAYLOAD
             else:
                 blk_num = self.get_block_num()
-            blk.overloaded_fields['block_num'] = blk_num
+            blk.setfieldval('block_num', blk_num)
         return blk_num
 
     def sort_block_num(self) -> None:
